@@ -202,7 +202,7 @@ def cmd_check(prop, tier, base_seed, workers, no_selftest=False, limit=None):
             'faults_fired': dict(agg['faults']),
             'link_stats': dict(agg['stats']),
             'probes': dict(agg['probes']),
-            'incomplete_runs': agg['incomplete'],
+            'health': {'runs_stopped_at_iteration_cap': agg['incomplete']},
             'determinism_selftest_plans': self_n,
             'violation_classes_seen': dict(agg['viol_counts']),
             'known_findings_hit': sorted(known_hits),
